@@ -21,8 +21,8 @@ RULE = ("two real dilated wormholes with dilate(ping_interval=x), x in 0.5..60 s
         "virtual timestamps. Non-trivial = at least 3 answered pings (responsive) or a blackhole that "
         "took effect on a CONNECTED pair; distinct = (x, behaviour, t0, latencies) tuples.")
 ASSUMPTIONS = ["Noise stand-in", "virtual time: all deadlines are decided on the simulated clock"]
-FLOORS = {"quick": {"pongs": 3000, "silent_cases_dropped": 60, "responsive_intervals": 3000},
-          "thorough": {"pongs": 100000, "silent_cases_dropped": 2500, "responsive_intervals": 110000}}
+FLOORS = {"quick": {"pongs": 3000, "silent_cases_dropped": 60, "responsive_intervals": 3000, "stops_with_lingering_connection": 12},
+          "thorough": {"pongs": 100000, "silent_cases_dropped": 2500, "responsive_intervals": 110000, "stops_with_lingering_connection": 300}}
 
 class Bulk:
     """push producer that keeps a subchannel's sender saturated (writes whenever it is allowed to)"""
@@ -81,6 +81,22 @@ def _install():
     wrap("_signal_reconnect", "drop")
     wrap("connector_connection_made", "made")
     wrap("connector_connection_lost", "lost")
+    # `stop` is an automat input (a descriptor): wrap what it hands out per instance
+    stop_desc = M.__dict__["stop"]
+
+    class StopRecorder:
+        def __get__(self_, oself, typ=None):
+            if oself is None:
+                return stop_desc.__get__(oself, typ)
+            bound = stop_desc.__get__(oself, typ)
+
+            def f(*a, **kw):
+                w = _world[0]
+                if w is not None:
+                    _events.append((w.reactor.seconds(), oself, "stop", None))
+                return bound(*a, **kw)
+            return f
+    M.stop = StopRecorder()
 
 
 def cases(tier, seed, prep=None):
@@ -90,6 +106,10 @@ def cases(tier, seed, prep=None):
     out = [{"seed": seed * 1000003 + 1600000 + i, "kind": kinds[i % len(kinds)], "bulk": i % len(kinds) in (7, 8)} for i in range(n)]
     for i in range(24 if tier == "quick" else 600):
         out.append({"seed": seed * 1000003 + 1650000 + i, "kind": "cut-then-responsive", "nflaps": [5, 8, 12, 20][i % 4]})
+    # dilation is stopped while the connection cannot go away at once (unsent data, a peer that is not reading):
+    # monitoring must stop with the stop, not with the eventual loss of the connection
+    for i in range(24 if tier == "quick" else 600):
+        out.append({"seed": seed * 1000003 + 1660000 + i, "kind": "close-lingering", "bulk": True})
     return out
 
 
@@ -205,6 +225,7 @@ def run_case(spec):
                 r.rightNow = t_end
                 break
     paused_app = None
+    lingering = {}
     if kind == "responsive-paused":
         # the Leader's own application stops reading one of its subchannels for a while (back-pressure towards
         # the peer): the Follower keeps answering every ping, the Leader just does not read the answers
@@ -265,6 +286,20 @@ def run_case(spec):
                 run_until(r.seconds() + 0.25 * x)
         horizon = r.seconds() + x * rng.choice([8, 20])
         run_until(horizon)
+    elif kind == "close-lingering":
+        lingering = {"unsent": 0, "stopped_at": None}
+        run_until(t_conn + rng.random() * 3 * x)
+        if bulk is not None and fl.built:
+            fl.built[0][1].transport.pauseProducing()          # the Follower's application stops reading
+            run_until(r.seconds() + 0.3 * x)                     # ... and everything towards it fills up
+            c_ = getattr(lm, "_connection", None)
+            lingering["unsent"] = len(getattr(getattr(c_, "transport", None), "outbuf", b""))
+            lingering["stopped_at"] = r.seconds()
+            dp.apps[lead].close()
+            run_until(r.seconds() + rng.choice([3, 5, 9]) * x)
+            lingering["state_after"] = dp.mstate(lead)
+            fl.built[0][1].transport.resumeProducing()
+        # (a Follower that does not read does not answer pings either: no "responsive peer" clause for this kind)
     elif kind == "close":
         run_until(t_conn + rng.random() * 4 * x)
         dp.a.close()
@@ -309,6 +344,15 @@ def run_case(spec):
             viol.append({"key": "C16/%s-without-connection" % w, "msg": "leader %s at t=%.3f but the connection was lost at t=%s and none has been made since" % (w, t, last_lost),
                          "witness": wit()})
             break
+    # ... and only until dilation is stopped
+    for m_, nm in ((lm, "leader"), (fm, "follower")):
+        ev_m = [(t, w) for (t, m, w, e) in _events if m is m_]
+        if ("stop" in [w for (t, w) in ev_m]):
+            i_stop = [w for (t, w) in ev_m].index("stop")
+            late = [(t, w) for (t, w) in ev_m[i_stop + 1:] if w in ("ping", "drop")]
+            if late:
+                viol.append({"key": "C16/%s-after-stop" % late[0][1], "msg": "%s: dilation stopped at t=%.3f, %s at t=%.3f (x=%s, Manager now %s)" % (
+                    nm, ev_m[i_stop][0], late[0][1], late[0][0], x, dp.mstate(lead if m_ is lm else fol)), "witness": wit()})
     silent_dropped = 0
     responsive_intervals = 0
     if kind in ("silent", "slow-then-silent") and silent_link is not None:
@@ -398,6 +442,7 @@ def run_case(spec):
             "counters": {"pongs": len(pongs), "pings": len([1 for (t, w, e) in ev_l if w == "ping"]), "silent_cases_dropped": silent_dropped,
                          "responsive_intervals": responsive_intervals, "drops": len(drops), "cuts": cuts, "kind_" + kind: 1, "repeated_silent_episodes": len(episodes) if (kind == "silent" and again) else 0,
                          "leader_app_paused_cases": int(paused_app is not None),
+                         "stops_with_lingering_connection": int(spec["kind"] == "close-lingering" and bool(lingering.get("unsent")) and lingering.get("state_after") == "STOPPING"),
                          "bulk_cases": int(bulk is not None), "bulk_bytes_written": bulk.written if bulk else 0,
                          "pings_sent_while_outbound_paused": paused_pings[0]},
             "sample": {"spec": spec, "x": x, "leader": lead, "pongs": len(pongs), "drops": [round(t, 3) for t in drops], "t0": t0,
